@@ -136,11 +136,15 @@ pub fn qsieve(
         [&roots_bck1[..], &roots_bck2[..]],
         None,
     );
+    #[cfg(yamaquasi_verif)] crate::verif::ev(|| format!("\"op\":\"stage\",\"st\":\"qs\",\"par\":{},\"tasks\":0,\"fb\":{},\"gap\":0,\"target\":{}", tpool.is_some(), fbase.len(), target));
     for large_blk_idx in 1.. {
+        #[cfg(yamaquasi_verif)] crate::verif::ev(|| format!("\"op\":\"task\",\"st\":\"qs\",\"u\":\"{}\"", large_blk_idx));
+        #[cfg(yamaquasi_verif)] crate::verif::ev(|| format!("\"op\":\"unit_start\",\"st\":\"qs\""));
         // The unit of work is an entire large block (blocks * BLOCK_SIZE)
         // The size of a large block should be similar to the SIQS interval size.
         // Forward sieve
         let mut do_sieve_fwd = || {
+            #[cfg(yamaquasi_verif)] crate::verif::ev(|| format!("\"op\":\"half\",\"st\":\"qs\",\"dir\":\"fwd\""));
             if s_fwd.blk_no == qs.nblocks() {
                 next_lgblock(&mut roots_fwd1, &mut roots_fwd2);
                 s_fwd.rehash([&roots_fwd1[..], &roots_fwd2[..]]);
@@ -152,6 +156,7 @@ pub fn qsieve(
         };
         // Backward sieve
         let mut do_sieve_bck = || {
+            #[cfg(yamaquasi_verif)] crate::verif::ev(|| format!("\"op\":\"half\",\"st\":\"qs\",\"dir\":\"bck\""));
             if s_bck.blk_no == qs.nblocks() {
                 next_lgblock(&mut roots_bck1, &mut roots_bck2);
                 s_bck.rehash([&roots_bck1[..], &roots_bck2[..]]);
@@ -169,7 +174,10 @@ pub fn qsieve(
             do_sieve_bck();
             assert_eq!(s_fwd.blk_no, s_bck.blk_no);
         }
+        #[cfg(yamaquasi_verif)] crate::verif::ev(|| format!("\"op\":\"unit_end\",\"st\":\"qs\""));
+        #[cfg(yamaquasi_verif)] crate::verif::ev(|| format!("\"op\":\"pre_poll\",\"st\":\"qs\",\"site\":\"seq\""));
         if prefs.abort() {
+            #[cfg(yamaquasi_verif)] crate::verif::ev(|| format!("\"op\":\"sieve_ret\",\"st\":\"qs\",\"why\":\"abort\""));
             return vec![];
         }
         let sieved = s_fwd.offset + s_bck.offset;
@@ -184,6 +192,7 @@ pub fn qsieve(
                 large_blk_idx % 10 == 0
             };
         let rels = qs.rels.read().unwrap();
+        #[cfg(yamaquasi_verif)] crate::verif::ev(|| format!("\"op\":\"r_len\",\"st\":\"qs\",\"held\":1,\"v\":{}", rels.len()));
         if do_print {
             rels.log_progress(format!("Sieved {}M", sieved >> 20,));
         }
@@ -192,10 +201,12 @@ pub fn qsieve(
         if n.bits() < 64 || rels.len() >= target {
             let rels = qs.rels.read().unwrap();
             let gap = rels.gap(&fbase);
+            #[cfg(yamaquasi_verif)] crate::verif::ev(|| format!("\"op\":\"r_gap\",\"st\":\"qs\",\"held\":1,\"rlen\":{},\"len\":{},\"v\":{}", rels.len(), rels.len(), gap));
             if gap == 0 {
                 if prefs.verbose(Verbosity::Info) {
                     eprintln!("Found enough relations");
                 }
+                #[cfg(yamaquasi_verif)] crate::verif::ev(|| format!("\"op\":\"loop_exit\",\"st\":\"qs\",\"why\":\"gap0\""));
                 break;
             } else {
                 if prefs.verbose(Verbosity::Info) {
@@ -207,6 +218,7 @@ pub fn qsieve(
     }
     let sieved = s_fwd.offset + s_bck.offset;
     let mut rels = qs.rels.into_inner().unwrap();
+    #[cfg(yamaquasi_verif)] crate::verif::ev(|| format!("\"op\":\"final_len\",\"st\":\"qs\",\"len\":{},\"fb\":{}", rels.len(), fbase.len()));
     if prefs.verbose(Verbosity::Info) {
         rels.log_progress(format!(
             "Sieved {:.1}M",
@@ -456,6 +468,32 @@ fn sieve_block(s: &SieveQS, st: &mut Sieve, roots: [&[u32]; 2], backward: bool) 
             "INTERNAL ERROR: failed relation check {:?}",
             &rel
         );
+        #[cfg(yamaquasi_verif)] crate::verif::sched_point("qs.w.lock");
+        #[cfg(yamaquasi_verif)] crate::verif::ev(|| format!("\"op\":\"w_req\",\"st\":\"qs\""));
         s.rels.write().unwrap().add(rel, pq);
+        #[cfg(yamaquasi_verif)] crate::verif::ev(|| format!("\"op\":\"w_rel\",\"st\":\"qs\""));
+    }
+}
+
+/// Verification accessors (cfg(yamaquasi_verif) only): private fields and methods of `SieveQS`.
+#[cfg(yamaquasi_verif)]
+pub mod vhook {
+    use super::*;
+
+    pub fn nblocks(qs: &SieveQS) -> usize {
+        qs.nblocks()
+    }
+    pub fn prepare_prime_fwd(qs: &SieveQS, pidx: usize) -> (u32, u32) {
+        qs.prepare_prime_fwd(pidx)
+    }
+    pub fn prepare_prime_bck(qs: &SieveQS, pidx: usize) -> (u32, u32) {
+        qs.prepare_prime_bck(pidx)
+    }
+    pub fn only_odds(qs: &SieveQS) -> bool {
+        qs.only_odds
+    }
+    /// (nsqrt, nsqrt^2 - n): the polynomial is (nsqrt + x)^2 - n
+    pub fn nsqrt(qs: &SieveQS) -> (I256, I256) {
+        (qs.nsqrt, qs.nsqrt2_minus_n)
     }
 }
